@@ -844,7 +844,8 @@ class Gen(object):
         if x is None:
             return None
         return {"op": "validate_optional", "x": self.ref(x),
-                "rule": self.pick(["section_repository_present", "property_terminology_check"])}
+                "rule": self.pick(["section_repository_present", "property_terminology_check",
+                                   "section_unique_ids", "property_unique_ids"])}
 
     def g_validate_custom(self):
         x = self.pick(self.U.objs)
